@@ -60,9 +60,21 @@ theorem candidates_serve (a : Local) (s : String) (h : s ∈ candidates a) :
   · simp [hu, unixCandidates] at h; exact Or.inl h
   · have hu' : a.unix = false := by cases hx : a.unix <;> simp_all
     simp only [hu', Bool.false_eq_true, ↓reduceIte, tcpCandidates, List.mem_cons, List.not_mem_nil, or_false] at h
-    rcases h with h | h | h
-    · exact Or.inl h
-    · exact Or.inr ⟨hu', Or.inl (by simpa [v4wild] using h)⟩
-    · exact Or.inr ⟨hu', Or.inr (by simpa [v6wild] using h)⟩
+    simp only [v4wild, v6wild, true_and]
+    grind
+
+/-- the connection's own address is the FIRST address tried -/
+theorem candidates_head (a : Local) : ∃ tl, candidates a = a.str :: tl := by
+  unfold candidates
+  cases a.unix <;> simp [unixCandidates, tcpCandidates]
+
+/-- so a listener configured on exactly the connection's address is preferred to any wildcard listener -/
+theorem find_prefers_exact (ls : List Lst) (L : Lst) (a : Local) (hm : L ∈ ls) (hn : L.network = a.network)
+    (he : L.addr = a.str) : ∃ R, find ls a = some R ∧ R ∈ ls ∧ R.network = a.network ∧ R.addr = a.str := by
+  obtain ⟨tl, htl⟩ := candidates_head a
+  obtain ⟨R, hR⟩ := findByAddress_of_mem ls L hm
+  rw [hn, he] at hR
+  refine ⟨R, ?_, findByAddress_some ls a.network a.str R hR⟩
+  simp [find, findWith, htl, List.findSome?_cons, hR]
 
 end MosnVerif.Lemmas.TransferLookup
